@@ -116,3 +116,48 @@ class ChangeTupleVariationAxisLimit(Contract):
         return And(*cs)
 
     ensures = [prop("contribution-at-every-location-of-the-new-range-preserved", lambda a, old, r: ChangeTupleVariationAxisLimit._post(a, r))]
+
+
+# -- axis limit helpers ----------------------------------------------------------------------------
+
+@contract
+class LimitRangeAndPopulateDefaults(Contract):
+    """AxisTriple.limitRangeAndPopulateDefaults: the result lies inside the fvar range, is
+    ordered, keeps the requested values where they are inside the range, and takes the fvar
+    default clamped into the new range when no default was requested."""
+    module = "fontTools.varLib.instancer"
+    qualname = "AxisTriple.limitRangeAndPopulateDefaults"
+    props = ("C08",)
+    shadow_mode = "real"
+    variants = ("full", "no-default", "only-min", "only-max", "none")
+    level = "PF"
+    assumptions = ("A-REAL",)
+
+    def args(self, S, variant):
+        from fontTools.varLib.instancer import AxisTriple
+
+        mn = S.real("min") if variant in ("full", "no-default", "only-min") else None
+        df = S.real("default") if variant == "full" else None
+        mx = S.real("max") if variant in ("full", "no-default", "only-max") else None
+        t = AxisTriple.__new__(AxisTriple)
+        for k, v in (("minimum", mn), ("default", df), ("maximum", mx)):
+            object.__setattr__(t, k, v)
+        return dict(self=t, fvarTriple=(S.real("fmin"), S.real("fdef"), S.real("fmax")))
+
+    def requires(self, a):
+        f = a.fvarTriple
+        cs = [f[0] <= f[1], f[1] <= f[2]]
+        t = a.self
+        if t.minimum is not None and t.maximum is not None:
+            cs.append(t.minimum <= t.maximum)
+        if t.default is not None:
+            cs += [t.minimum <= t.default, t.default <= t.maximum]
+        return And(*cs)
+
+    ensures = [prop("inside-fvar-range-ordered-and-faithful", lambda a, old, r: And(
+        a.fvarTriple[0] <= r.minimum, r.minimum <= r.default, r.default <= r.maximum, r.maximum <= a.fvarTriple[2],
+        True if a.self.minimum is None else Implies(And(a.fvarTriple[0] <= a.self.minimum, a.self.minimum <= a.fvarTriple[2]), eq(r.minimum, a.self.minimum)),
+        True if a.self.maximum is None else Implies(And(a.fvarTriple[0] <= a.self.maximum, a.self.maximum <= a.fvarTriple[2]), eq(r.maximum, a.self.maximum)),
+        True if a.self.minimum is not None else eq(r.minimum, a.fvarTriple[0]),
+        True if a.self.maximum is not None else eq(r.maximum, a.fvarTriple[2]),
+        True if a.self.default is not None else Implies(And(r.minimum <= a.fvarTriple[1], a.fvarTriple[1] <= r.maximum), eq(r.default, a.fvarTriple[1]))))]
